@@ -650,6 +650,16 @@ func (fr *Frame) builtin(b *ssa.Builtin, cc *ssa.CallCommon, res ssa.Value) {
 			t := fr.mapLen(fr.cur, a)
 			t = sIte(sEq(a.Term, "0"), "0", t)
 			fr.assume(sLe("0", t))
+			// len is the cardinality of the domain; the consequence used by "if len(m) == 0":
+			// a map that contains some key has positive length
+			mh := fr.mapInfo(a.T)
+			dom := x.em.Def("len.dom", "(Array "+mh.kSort+" Bool)", sSelect(x.heapGet(fr.cur, mh.dom, mh.domS), a.Term))
+			if !strings.HasPrefix(dom, "len.dom") {
+				c := x.em.Fresh("len.dom", "(Array "+mh.kSort+" Bool)")
+				x.em.Assert(sEq(c, dom))
+				dom = c
+			}
+			fr.assume("(forall ((k " + mh.kSort + ")) (! (=> (select " + dom + " k) (<= 1 " + t + ")) :pattern ((select " + dom + " k))))")
 			fr.setResult(res, leaf(rt, t))
 		case KArray:
 			fr.setResult(res, leaf(rt, sInt(a.T.Underlying().(*types.Array).Len())))
